@@ -3,7 +3,8 @@
     exactly three places - the start-position setter and [Chain.step], each once and outside any
     loop (the two places where the machine's ghost call log grows: [set_start], [step]), and the
     virtual moves of the componentwise Andrieu-Thoms adaptation (inside its loop over the
-    parameters; counted separately by the harness) - and the model object is read nowhere else
+    parameters, in a private helper of [_update] that the census folds into its only caller; counted
+    separately by the harness) - and the model object is read nowhere else
     than in the constructors that hand it to the chains; [Chain.step] itself is called from exactly
     two loops: the sampler's iteration loop and the parallel-tempered chain's loop over its levels.
     A new call site, an alias of the model, or a second call inside a step changes these constants. *)
@@ -15,7 +16,7 @@ Local Open Scope string_scope.
 Theorem C18_src_model_call_sites :
   src_model_call_sites
   = [("epsie/chain/chain.py:Chain.start_position", 0%nat); ("epsie/chain/chain.py:Chain.step", 0%nat);
-     ("epsie/proposals/normal.py:ATAdaptiveSupport._componentwise_scaling", 1%nat)].
+     ("epsie/proposals/normal.py:ATAdaptiveSupport._update", 1%nat)].
 Proof. reflexivity. Qed.
 Print Assumptions C18_src_model_call_sites.
 
